@@ -427,7 +427,7 @@ func c20Served(c *ev.Ctx) {
 			}
 			wg.Wait()
 		}()
-		if out, dump := quiesce.Await(done, 120*time.Second); out != quiesce.CondMet {
+		if out, dump := quiesce.Await(done, 2*wd); out != quiesce.CondMet {
 			hang(c, out, dump, "C20:served:concurrent-walks-hang", nil)
 			return
 		}
@@ -435,7 +435,7 @@ func c20Served(c *ev.Ctx) {
 			cc.Close()
 		}
 		for _, hd := range hds {
-			quiesce.Await(hd, 30*time.Second)
+			quiesce.Await(hd, wd)
 		}
 		seen := map[string]p9.QID{}
 		owner := map[uint64]string{}
